@@ -166,7 +166,7 @@ def main(tier, replay):
             same.append({"clause": "C11.def_unchanged", "x": o["dicts"][0], "y": d})
             meta.append(("same", s, k, o["dicts"][0], d))
         keys = {"numkeys": sorted(o["copy"][0]["num"]) if o["copy"] else [], "stkeys": sorted(o["copy"][0]["st"]) if o["copy"] else [],
-                "atol": common.num(1e-7), "rtol": common.num(1e-7), "qsmall": common.num(1e-7), "boundary": [],
+                "atol": common.num(2e-4), "rtol": common.num(1e-4), "qsmall": common.num(1e-4), "boundary": [],
                 "clause2": "C11.times", "clause3": "C11.times"}
         for j, r in enumerate(o["runs"][1:]):
             agree.append(dict(keys, clause="C11.reset_reproduces", a=o["runs"][0], b=r))
